@@ -243,7 +243,7 @@ def run_s(block, ctx):
             ctx.evals += 4
             ctx.states += 1
             case = {"part": "S", "pattern": p, "sep": sep}
-            row, _ = syntax._parse_raw_rule(p + sep + "%global", {})
+            row, _ = env.call_private(syntax, "_parse_raw_rule", p + sep + "%global", {})
             if row != p:
                 ctx.violation({"kind": "params-not-split", "via": "_parse_raw_rule", "sep": repr(sep)}, case, "row=%r" % row)
             o = compile_ordering_text(p + sep + "%order_reverse\n", "huawei")
@@ -281,7 +281,7 @@ def run_s(block, ctx):
             exp = re.sub(r"\s+", " ", st[:m.start()].strip())
             ctx.evals += 1
             ctx.states += 1
-            row, _ = syntax._parse_raw_rule(st, {})
+            row, _ = env.call_private(syntax, "_parse_raw_rule", st, {})
             if row != exp:
                 ctx.violation({"kind": "params-not-split", "via": "_parse_raw_rule", "file": fname,
                                "sep": repr(st[m.start():m.start() + 1])},
@@ -315,7 +315,7 @@ def check_pair(p, r, rx, ctx_violation):
 def check_reverse(p, key, ctx_violation):
     from annet.rulebook import patching as rpatching
     for prefix in PREFIXES:
-        tmpl = rpatching._make_reverse(p, prefix)
+        tmpl = env.call_private(rpatching, "_make_reverse", p, prefix)
         try:
             got = tmpl.format(*key)
         except Exception as e:  # noqa
@@ -327,7 +327,7 @@ def check_reverse(p, key, ctx_violation):
                           "impl=%r ref=%r template=%r" % (got, exp, tmpl))
         # negating the negated rule gives back the plain rule
         neg = rulelang.negate_pattern(p, prefix)
-        back = rpatching._make_reverse(neg, prefix)
+        back = env.call_private(rpatching, "_make_reverse", neg, prefix)
         try:
             got2 = back.format(*key)
         except Exception as e:  # noqa
@@ -344,8 +344,8 @@ def check_acl_ordering_reverse(p, rws, ctx):
     from annet.annlib.rbparser import acl as racl
     from annet.annlib.rbparser import syntax
     for prefix in ("undo", "no"):
-        rp = racl._make_reverse(p, prefix)
-        if racl._make_reverse(rp, prefix) != p and not p.startswith(prefix + " "):
+        rp = env.call_private(racl, "_make_reverse", p, prefix)
+        if env.call_private(racl, "_make_reverse", rp, prefix) != p and not p.startswith(prefix + " "):
             ctx.violation({"kind": "acl-reverse-involution", "shape": rulelang.shape(p)},
                           {"part": "A", "pattern": p, "prefix": prefix}, "reverse=%r" % rp)
         direct = syntax.compile_row_regexp(p)
@@ -609,7 +609,7 @@ def replay(case):
         return [(e["sig"], e["cases"][0]["detail"]) for e in ctx.result()["viol"].values()
                 if e["sig"].get("param") == case["param"].split("=")[0]]
     if case.get("part") == "S":
-        row, _ = syntax._parse_raw_rule(case.get("line") or (case["pattern"] + case["sep"] + "%global"), {})
+        row, _ = env.call_private(syntax, "_parse_raw_rule", case.get("line") or (case["pattern"] + case["sep"] + "%global"), {})
         exp = case["pattern"] if "pattern" in case else re.sub(r"\s+", " ", case["line"][:re.search(r"\s%[a-zA-Z_]", case["line"]).start()].strip())
         if row != exp:
             v({"kind": "params-not-split", "via": "_parse_raw_rule"}, case, "row=%r expected=%r" % (row, exp))
